@@ -330,4 +330,14 @@ impl Checksum {
       edits=[('src/aml.rs', "    assert!(lo <= 15);", "    assert!(lo < 15);")]),
  dict(prop='C02', name='Tpm2 log area makes the start-method parameter slice one byte too long', expect='tpm2::Tpm2',
       edits=[('src/tpm2.rs', "        self.start_method_param_len = 12;", "        self.start_method_param_len = 13;")]),
+ dict(prop='C04', name='a second deviation in a structure that already has a known finding (validation/flags exchanged in GenericErrorData)', expect='hest::GenericErrorData',
+      edits=[('src/hest.rs', "        sink.byte(self.validation);\n        sink.byte(self.flags);", "        sink.byte(self.flags);\n        sink.byte(self.validation);")]),
+ dict(prop='C04', name='MCFG allocation entry: reserved byte set', expect='mcfg::MCFG::add_ecam',
+      edits=[('src/mcfg.rs', "            _reserved: [0, 0, 0, 0],", "            _reserved: [0, 0, 0, 1],")]),
+ dict(prop='C04', name='GAS::new_pci_config puts the function number in the device word', expect='gas::GAS::new_pci_config',
+      edits=[('src/gas.rs', "(((device as u64) << 32) | ((function as u64) << 16) | (register as u64))", "(((function as u64) << 32) | ((device as u64) << 16) | (register as u64))")]),
+ dict(prop='C04', name='CxlFixedMemory::new stores base address and size in each other\'s field', expect='cedt::CxlFixedMemory::new',
+      edits=[('src/cedt.rs', "        Self {\n            base_addr,\n            size,\n            interleave_arithmetic: arithmetic,", "        Self {\n            base_addr: size,\n            size: base_addr,\n            interleave_arithmetic: arithmetic,")]),
+ dict(prop='C04', name='IdMapping::new exchanges source and destination id', expect='rimt::IdMapping::new',
+      edits=[('src/rimt.rs', "        Self {\n            src_id,\n            dst_id,\n            num_ids,", "        Self {\n            src_id: dst_id,\n            dst_id: src_id,\n            num_ids,")]),
 ]
